@@ -84,6 +84,9 @@ func CheckWire(tap *Tap, wire, c2s string, alive bool, w *World) {
 			continue
 		}
 		r := e.Rpc
+		if on, lost := tap.LostOn[r.GetId()]; lost && on != wire {
+			continue
+		}
 		if e.Dir == c2s {
 			s := get(r.GetId())
 			if r.Header == nil {
